@@ -35,7 +35,7 @@ pub const NAME_POOL: &[&str] = &[
     // names and patterns people special-case: hidden files, match-everything spellings, well-known names
     ".*", ".hidden", "*.*", "?", "**", "[!a]*", "core", "lost+found", "Makefile", "*~", ".", "..", "-", "*.o", "*.tar.gz",
 ];
-pub const FILE_POOL: &[&str] = &["out.txt", "a", "b", "c", "list.out", "dir/f", "./a", "A", "a/", " b", "/dev/stdout", "-", "/dev/stderr", "stdout"];
+pub const FILE_POOL: &[&str] = &["out.txt", "a", "b", "c", "list.out", "dir/f", "./a", "A", "a/", " b", "/dev/stdout", "-", "/dev/stderr", "stdout", "-print", "-true", "-o", "!", "-depth"];
 
 /// User strings that spell pieces of the program the library emits (generated names, primitives, special
 /// forms, the frame separator): code that scans its own output text - to count parentheses, to find out
